@@ -230,19 +230,27 @@ class ObjRun(object):
             self.fresh = False
             self.events.append({"ev": "Set", "what": "ranges"})
 
-    def install_cons(self, s, midrun):
+    def install_cons(self, s, midrun, kw=None):
+        """install through SetConstraints, or (kw given) through the `constraints=` keyword of the next Step"""
         if self.cons_pristine is None:
             return
-        s.SetConstraints(as_given(self.cons_pristine, self.cfg.get("inplace", False)))
+        f = as_given(self.cons_pristine, self.cfg.get("inplace", False))
+        if kw is None:
+            s.SetConstraints(f)
+        else:
+            kw["constraints"] = f
         self.cons = self.cons_pristine
         if midrun:
             self.fresh = False
             self.events.append({"ev": "Set", "what": "cons"})
 
-    def install_pen(self, s, midrun):
+    def install_pen(self, s, midrun, kw=None):
         if self.pen_pristine is None:
             return
-        s.SetPenalty(self.pen_pristine)
+        if kw is None:
+            s.SetPenalty(self.pen_pristine)
+        else:
+            kw["penalty"] = self.pen_pristine
         self.pen = self.pen_pristine
         if midrun:
             self.fresh = False
@@ -310,12 +318,14 @@ class ObjRun(object):
                             "randomclip": cfg.get("clip") is False, "members": True, "cfg": cfg, "seed": self.seed})
         steps = cfg.get("steps", 6)
         for k in range(steps + 1):
+            kw = {}
+            via_step = cfg.get("via") == "step" and k < steps
             if at["box"] == k:
                 self.install_box(s, k > 0)
             if at["cons"] == k:
-                self.install_cons(s, k > 0)
+                self.install_cons(s, k > 0, kw if via_step else None)
             if at["pen"] == k:
-                self.install_pen(s, k > 0)
+                self.install_pen(s, k > 0, kw if via_step else None)
             if k == steps:
                 break
             if k == 0:
@@ -323,7 +333,7 @@ class ObjRun(object):
                 x0 = list(tup(s.population[0]))
                 self.init = None if tight else self.e(self.obj(x0))
             before = self.ncalls
-            msg = s.Step()
+            msg = s.Step(**kw)
             if self.ncalls > before or k == 0:
                 pass
             self.boundary(note="step%d" % k)
